@@ -974,7 +974,8 @@ impl Exec {
                         // (a deadline inside the window of an armed clock jump, or exactly now, leaves the answer open)
                         if readable_now && !self.at_deadline(k) && got != Some(expected_value) {
                             // the upsert gave the dead entry a new deadline: it is readable again and must show the new state
-                            return Err(Failure::new("C08", "C08/in-place/value", format!("after {} get({}) = {:x?}, expected {:x?}", what, k, got, Some(expected_value))));
+                            // readable again because the upsert moved or removed the deadline: also what C09 is about
+                            return Err(Failure::new("C08", "C08/in-place/value", format!("after {} get({}) = {:x?}, expected {:x?}", what, k, got, Some(expected_value))).with_also(if remove || ttl.is_some() { vec!["C09".to_string()] } else { Vec::new() }));
                         }
                     }
                 }
